@@ -257,6 +257,9 @@ fn max_seq_tail(b: &[u8], emitter: &str) -> i64 {
 }
 
 pub fn run(a: &Args) -> Option<Report> {
+    if a.leg == "events" {
+        return Some(run_events(a));
+    }
     if a.leg == "vanish" {
         return Some(run_vanish(a));
     }
@@ -372,7 +375,17 @@ pub fn run(a: &Args) -> Option<Report> {
         let act_at: Vec<usize> = (0..nclients).map(|_| 1 + r.usize(nbursts - 1)).collect();
         let mut stalled_out = false;
         let mut trace: Vec<String> = vec![format!("buffer_size={:?} clients={:?} emitters={} bursts={}x{}", buffer_size, behaviours, nemit, nbursts, burst)];
+        // in half of the scenarios one metric is described again (other unit and text) at the start of a burst: clients
+        // accepted in a later burst must be sent the new description, earlier ones the old one
+        let redesc_at: Option<usize> = if r.chance(1, 2) { Some(1 + r.usize(nbursts - 1)) } else { None };
         for bi in 0..nbursts {
+            if redesc_at == Some(bi) {
+                rec.describe_gauge(KeyName::from("g_meta"), Some(Unit::Bytes), SharedString::from("a gauge, described again"));
+                trace.push(format!("burst {}: g_meta described again (unit bytes)", bi));
+                if buffer_size.map(|b| b <= 4).unwrap_or(false) {
+                    std::thread::sleep(Duration::from_millis(4));
+                }
+            }
             // client actions scheduled for this burst
             for ci in 0..nclients {
                 if act_at[ci] != bi {
@@ -493,6 +506,32 @@ pub fn run(a: &Args) -> Option<Report> {
                 break;
             }
         }
+        // a probe client connecting after everything above was acknowledged is sent the latest description of every metric
+        if redesc_at.is_some() && !stalled_out {
+            if let Some(mut pc) = connect_client(99, addr, "reader", nbursts) {
+                let t = Instant::now();
+                while t.elapsed() < Duration::from_secs(3) && max_seq(&pc.buf, "none").1 < metas.len() {
+                    std::thread::sleep(Duration::from_millis(2));
+                }
+                pc.stop.store(true, Ordering::SeqCst);
+                if let Some(s_) = pc.stream.take() {
+                    let _ = s_.shutdown(Shutdown::Both);
+                }
+                if let Some(h) = pc.reader.take() {
+                    let _ = h.join();
+                }
+                let b = pc.buf.lock().unwrap().clone();
+                if let Ok((frames, _)) = deframe(&b) {
+                    let g = frames.iter().find_map(|f| if let Frame::Metadata { name, unit, desc, .. } = f { if name == "g_meta" { Some((unit.clone(), desc.clone())) } else { None } } else { None });
+                    let want = (Some(Unit::Bytes.as_str().to_string()), Some("a gauge, described again".to_string()));
+                    if let Some(got) = g {
+                        if got != want {
+                            rep.violation("C11:metadata-not-first-or-incomplete:stale-after-redescribe", jo! {"what" => "a client connecting after a metric had been described again (and later emissions had been acknowledged) was sent the earlier unit/description", "got" => format!("{:?}", got), "expected" => format!("{:?}", want), "buffer_size" => bdesc.clone(), "trace" => J::A(trace.iter().map(|x| J::s(x.clone())).collect())});
+                        }
+                    }
+                }
+            }
+        }
         // tear down and judge every client's captured stream
         for c in clients.iter_mut() {
             c.reading.store(true, Ordering::SeqCst);
@@ -525,8 +564,24 @@ pub fn run(a: &Args) -> Option<Report> {
             let later_meta = frames.iter().skip(nmeta).any(|f| matches!(f, Frame::Metadata { .. }));
             let mut exp_meta: Vec<(String, u64, Option<String>, Option<String>)> = metas.iter().map(|(n, k, u, d)| (n.to_string(), *k as u64, u.map(|x| x.as_str().to_string()), Some(d.to_string()))).collect();
             let mut got_meta: Vec<(String, u64, Option<String>, Option<String>)> = frames.iter().take(nmeta).filter_map(|f| if let Frame::Metadata { name, ty, unit, desc } = f { Some((name.clone(), *ty, unit.clone(), desc.clone())) } else { None }).collect();
+            // which description of g_meta was the known one when this client connected
+            let mut exp_alt: Option<Vec<(String, u64, Option<String>, Option<String>)>> = None;
+            if let Some(rb) = redesc_at {
+                let newer: Vec<(String, u64, Option<String>, Option<String>)> = exp_meta.iter().map(|e| if e.0 == "g_meta" { (e.0.clone(), e.1, Some(Unit::Bytes.as_str().to_string()), Some("a gauge, described again".to_string())) } else { e.clone() }).collect();
+                if c.behaviour == "late" && c.connected_after_burst > rb {
+                    exp_meta = newer;
+                } else if c.behaviour == "late" && c.connected_after_burst == rb {
+                    exp_alt = Some(newer); // connected while the description was on its way: either is right
+                }
+            }
             exp_meta.sort();
             got_meta.sort();
+            if let Some(alt) = exp_alt.as_mut() {
+                alt.sort();
+                if got_meta == *alt {
+                    exp_meta = alt.clone();
+                }
+            }
             let stalled_client = c.behaviour == "staller";
             if (got_meta != exp_meta || later_meta) && !stalled_client && !frames.is_empty() {
                 rep.violation("C11:metadata-not-first-or-incomplete", jo! {"what" => "a client did not receive first exactly the metadata known when it connected", "got" => format!("{:?}", got_meta), "expected" => format!("{:?}", exp_meta), "metadata_after_metrics" => later_meta, "client" => cdesc.clone()});
@@ -963,6 +1018,163 @@ impl FrameCounter {
         }
         self.count
     }
+}
+
+/// Wake-ups that carry no metric (describe calls) arriving back to back while (a) a client with a parked backlog starts
+/// reading again and (b) new clients connect. Socket readiness is edge-triggered, so an event the transport drops is not
+/// reported again: bounded progress with a discriminator — if nothing moves for 3 s and everything arrives right after
+/// one unrelated emission / connection, the event had been lost.
+fn run_events(a: &Args) -> Report {
+    let mut rep = Report::new("C11", &a.leg, a.seed);
+    rt::quiet_panics();
+    let mut r = Rng::new(a.shard_seed());
+    let scenarios = a.budget(2, 40);
+    for sc in 0..scenarios {
+        let port = {
+            let l = TcpListener::bind("127.0.0.1:0").unwrap();
+            l.local_addr().unwrap().port()
+        };
+        let addr: SocketAddr = format!("127.0.0.1:{}", port).parse().unwrap();
+        let rec = match TcpBuilder::new().listen_address(addr).buffer_size(Some(65536)).build() {
+            Ok(r) => Arc::new(r),
+            Err(e) => {
+                rep.inconclusive(format!("build failed: {:?}", e));
+                continue;
+            }
+        };
+        rec.describe_counter(KeyName::from("m"), None, SharedString::from("x"));
+        std::thread::sleep(Duration::from_millis(20));
+        let mut slow = match connect_client(0, addr, "heavy-staller", 0) {
+            Some(c) => c,
+            None => {
+                rep.inconclusive("could not connect");
+                continue;
+            }
+        };
+        let mut fc = FrameCounter { off: 0, count: 0 };
+        let t = Instant::now();
+        while t.elapsed() < Duration::from_secs(5) && fc.advance(&slow.buf) < 1 {
+            std::thread::sleep(Duration::from_millis(1));
+        }
+        slow.reading.store(false, Ordering::SeqCst);
+        std::thread::sleep(Duration::from_millis(10));
+        let n = *r.pick(&[8_000usize, 20_000]);
+        let pad: String = std::iter::repeat('p').take(1000).collect();
+        for seq in 0..n {
+            let key = Key::from_parts("m", vec![Label::new("emitter", "0"), Label::new("seq", seq.to_string()), Label::new("pad", pad.clone())]);
+            rec.register_counter(&key, &MD).increment(seq as u64);
+        }
+        std::thread::sleep(Duration::from_millis(150));
+        // back-to-back empty wake-ups from now on
+        let noise_stop = Arc::new(AtomicBool::new(false));
+        let noise = {
+            let (rec, noise_stop) = (rec.clone(), noise_stop.clone());
+            std::thread::spawn(move || {
+                let mut k = 0u64;
+                while !noise_stop.load(Ordering::SeqCst) {
+                    rec.describe_gauge(KeyName::from("noise"), None, SharedString::from("wake-up without a metric"));
+                    k += 1;
+                    if k % 64 == 0 {
+                        std::thread::yield_now();
+                    }
+                }
+            })
+        };
+        // (a) the slow client reads again: its parked backlog must be driven out without any further emission
+        slow.reading.store(true, Ordering::SeqCst);
+        let expected = 1 + n; // metadata + metrics (65536 >= n: nothing may be discarded for it)
+        let mut last_progress = (fc.advance(&slow.buf), Instant::now());
+        let mut stuck = false;
+        let t2 = Instant::now();
+        while fc.advance(&slow.buf) < expected {
+            if fc.count != last_progress.0 {
+                last_progress = (fc.count, Instant::now());
+            }
+            if last_progress.1.elapsed() > Duration::from_secs(3) {
+                stuck = true;
+                break;
+            }
+            if t2.elapsed() > Duration::from_secs(60) {
+                break;
+            }
+            std::thread::sleep(Duration::from_millis(2));
+        }
+        let desc = jo! {"metrics_parked_for_the_slow_client" => n, "buffer_size" => "Some(65536)", "frames_received_before_stall" => fc.count};
+        if stuck {
+            let before = fc.count;
+            noise_stop.store(true, Ordering::SeqCst);
+            std::thread::sleep(Duration::from_millis(50));
+            // discriminator: one unrelated emission
+            rec.register_counter(&Key::from_parts("m", vec![Label::new("emitter", "1"), Label::new("seq", "0"), Label::new("pad", "x")]), &MD).increment(1);
+            let t3 = Instant::now();
+            while t3.elapsed() < Duration::from_secs(5) && fc.advance(&slow.buf) < expected {
+                std::thread::sleep(Duration::from_millis(2));
+            }
+            if fc.count >= expected {
+                rep.violation("C11:parked-backlog-not-driven-until-next-emission", jo! {"what" => "a client that had stopped reading resumed; while only metric-less wake-ups (describe calls) reached the transport its parked backlog stood still for 3 s, and it was delivered right after one unrelated emission: the socket's readiness event had been dropped", "frames_received_when_stuck" => before, "frames_expected" => expected, "scenario" => desc.clone()});
+            } else {
+                rep.inconclusive("backlog delivery stalled and did not resume after an emission within the watchdog");
+            }
+        } else if fc.count < expected {
+            rep.inconclusive("backlog still arriving after 60 s");
+        }
+        // (b) new clients connect while the empty wake-ups continue: each must be accepted (sent its metadata)
+        let mut served = 0u64;
+        if !stuck {
+            for ci in 0..6usize {
+                let c = match connect_client(10 + ci, addr, "reader", 0) {
+                    Some(c) => c,
+                    None => continue,
+                };
+                let mut cfc = FrameCounter { off: 0, count: 0 };
+                let t4 = Instant::now();
+                while t4.elapsed() < Duration::from_secs(3) && cfc.advance(&c.buf) < 1 {
+                    std::thread::sleep(Duration::from_millis(1));
+                }
+                let mut extra = None;
+                if cfc.count < 1 {
+                    // discriminator: another connection
+                    extra = connect_client(100 + ci, addr, "reader", 0);
+                    let t5 = Instant::now();
+                    while t5.elapsed() < Duration::from_secs(3) && cfc.advance(&c.buf) < 1 {
+                        std::thread::sleep(Duration::from_millis(1));
+                    }
+                    if cfc.count >= 1 {
+                        rep.violation("C11:client-not-accepted-until-another-connected", jo! {"what" => "a connected client was sent nothing for 3 s while metric-less wake-ups kept arriving, and was served right after another client connected: the listener's readiness event had been dropped", "client_index" => ci, "scenario" => desc.clone()});
+                    } else {
+                        rep.inconclusive("a connected client was not served within the watchdog, also after another connection");
+                    }
+                } else {
+                    served += 1;
+                }
+                for mut cl in [Some(c), extra].into_iter().flatten() {
+                    cl.stop.store(true, Ordering::SeqCst);
+                    if let Some(s_) = cl.stream.take() {
+                        let _ = s_.shutdown(Shutdown::Both);
+                    }
+                    if let Some(h) = cl.reader.take() {
+                        let _ = h.join();
+                    }
+                }
+            }
+        }
+        noise_stop.store(true, Ordering::SeqCst);
+        let _ = noise.join();
+        slow.stop.store(true, Ordering::SeqCst);
+        if let Some(s_) = slow.stream.take() {
+            let _ = s_.shutdown(Shutdown::Both);
+        }
+        if let Some(h) = slow.reader.take() {
+            let _ = h.join();
+        }
+        rep.count("clients_accepted_during_empty_wakeups", served);
+        rep.count("frames_received:resumed-client", fc.count as u64);
+        rep.case(mix(sc, fc.count as u64), true);
+        if rep.want_sample() {
+            rep.sample(jo! {"empty_wakeups" => true, "scenario" => desc, "frames_received_by_resumed_client" => fc.count, "clients_accepted_meanwhile" => served});
+        }
+    }
+    rep
 }
 
 /// Back-to-back emissions from several threads racing the transport's "queue drained, go back to sleep" decision.
